@@ -247,8 +247,6 @@ def entry_task(tier, native):
         insts = json.loads(r["out"])["instances"]
         n = 0
         for i, inst in enumerate(insts):
-            if inst.get("duplicate_source"):
-                continue
             n += 1
             _, obs = verify_instance(inst, i)
             res.obligations.extend(obs)
